@@ -4,6 +4,7 @@
 set -euo pipefail
 VERIF=$(cd "$(dirname "$0")/.." && pwd)
 cd "$VERIF/coq"
+exec 8>"$VERIF/coq/.build.lock"; flock 8        # checks running in parallel share one build
 if [ "${1:-}" = clean ]; then
   [ -f Makefile ] && make -s clean >/dev/null 2>&1 || true
   find . -name '*.vo' -o -name '*.vos' -o -name '*.vok' -o -name '*.glob' -o -name '.*.aux' | xargs -r rm -f
@@ -18,7 +19,7 @@ if ! timeout 3000 make -k -j16 > "$VERIF/coq/.log/make.log" 2>&1; then
 fi
 mkdir -p "$VERIF/ocaml/gen"
 cd "$VERIF/ocaml/gen"
-if [ ! -f model.ml ] || [ "$VERIF/coq/Extract/Extract.v" -nt model.ml ] || [ -n "$(find "$VERIF/coq" -name '*.vo' -newer model.ml | head -1)" ]; then
+if [ ! -f model.ml ] || [ "$VERIF/coq/Extract/Extract.v" -nt model.ml ] || [ -n "$(find "$VERIF/coq" -name '*.vo' -not -path '*/Props/*' -newer model.ml | head -1)" ]; then
   timeout 600 coqc -Q "$VERIF/coq" QSX "$VERIF/coq/Extract/Extract.v" > extract.log 2>&1 || { cat extract.log >&2; echo "EXTRACT-FAILED" >&2; exit 2; }
 fi
 for d in "$VERIF"/ocaml/drv_*.ml; do
